@@ -487,3 +487,8 @@ func C08(c *vf.Ctx) {
 	c.Cov["exhaustive_note"] = "exhaustive over the class alphabet / structure product for the stated bounds; 64-bit values and arbitrary byte strings are sampled"
 	c.Cov["sampled_u64_round_trips"] = len(vals)
 }
+
+func init() {
+	All["C08"] = C08
+	SpecModules = append(SpecModules, "Codec")
+}
